@@ -1,4 +1,5 @@
 import L21.Props.C06
+import L21.Props.C06S
 import L21.Props.C12
 import L21.Props.C17
 #print axioms L21.RawGds.c06_array_count
@@ -13,3 +14,7 @@ import L21.Props.C17
 #print axioms L21.RawGds.c06_path_width
 #print axioms L21.Aff.c12_flatten
 #print axioms L21.Dep.c17_cycle_error
+#print axioms L21.RawGds.c06_struct_pass1
+#print axioms L21.RawGds.c06_struct_error
+#print axioms L21.RawGds.c06_label_rule
+#print axioms L21.RawGds.c06_label_keeps_shapes
